@@ -9,6 +9,7 @@ import (
 
 	"fmt"
 	"math/big"
+	"strings"
 
 	sdkmath "cosmossdk.io/math"
 
@@ -61,6 +62,7 @@ type bRes struct {
 	cls  Class
 	outs []*big.Int
 	pool [3]*big.Int
+	msg  string // panic message
 }
 
 // mkPool builds a BasePool with the given state; the emptied pool is reached by removing all liquidity.
@@ -90,7 +92,7 @@ func bExec(op bOp) (res bRes) {
 	var p *swaptypes.BasePool
 	defer func() {
 		if r := recover(); r != nil {
-			res = bRes{cls: ClassPanic}
+			res = bRes{cls: ClassPanic, msg: fmt.Sprint(r)}
 		}
 	}()
 	switch op.Kind {
@@ -180,6 +182,11 @@ func bMonitor(op bOp, r bRes) (pred, sig, detail string) {
 		if !okSym {
 			return "denom-order-symmetry", "asymmetric-result", fmt.Sprintf("%v %v vs mirrored %v %v", r.outs, r.pool, mr.outs, mr.pool)
 		}
+	}
+	// the pool's own "this is a bug" assertions never fire on a pool with positive reserves and shares
+	if r.cls == ClassPanic && strings.Contains(r.msg, "invalid state") && ra.Sign() > 0 && rb.Sign() > 0 && s.Sign() > 0 &&
+		!strings.Contains(r.msg, "deposit B must be positive") {
+		return "internal-assertions-unreachable", "internal-assertion-fired", r.msg
 	}
 	if r.cls != ClassOk {
 		return "", "", ""
